@@ -67,7 +67,7 @@ def big_case(rng):
 
 
 def run(ctx):
-    for _ in range(3 if ctx.quick else 12):
+    for _ in range(8 if ctx.quick else 20):
         do_case(ctx, big_case(ctx.rng))
     n = (1200 if ctx.quick else 12000) * (3 if ctx.search else 1)
     for _ in range(n):
